@@ -70,7 +70,7 @@ class PartResult:
 class Native:
     """A Rust program under /verif/exec/<dir>/main.rs compiled against the real sources."""
 
-    def __init__(self, name, src, env=None, quick_args=(), thorough_args=(), rule='', timeout=900, prepare=None, rustc_args=(), cargo_deps=None, builder=None):
+    def __init__(self, name, src, env=None, quick_args=(), thorough_args=(), rule='', timeout=900, prepare=None, rustc_args=(), cargo_deps=None, builder=None, builder_thorough=None):
         self.name = name
         self.src = src
         self.env = env or {}
@@ -82,9 +82,15 @@ class Native:
         self.rustc_args = list(rustc_args)
         self.cargo_deps = cargo_deps      # text of a [dependencies] section => build with cargo (offline) instead of rustc
         self.builder = builder            # callable returning the path of a ready binary (custom build)
+        self.builder_thorough = builder_thorough   # optional: a larger build for the thorough tier (more programs)
         self._bin = None
+        self._bin_thorough = None
 
-    def build(self):
+    def build(self, tier=None):
+        if tier == 'thorough' and self.builder_thorough is not None:
+            if not self._bin_thorough:
+                self._bin_thorough = self.builder_thorough()
+            return self._bin_thorough
         if self._bin:
             return self._bin
         if self.builder is not None:
@@ -118,8 +124,8 @@ class Native:
         self._bin = out
         return out
 
-    def run(self, args, timeout=None):
-        b = self.build()
+    def run(self, args, timeout=None, tier=None):
+        b = self.build(tier)
         try:
             p = subprocess.run([b] + list(args), stdout=subprocess.PIPE, stderr=subprocess.PIPE, text=True,
                                timeout=timeout or self.timeout)
@@ -149,7 +155,7 @@ class Native:
         r = PartResult(self.name, 'bounded')
         t0 = time.time()
         try:
-            self.build()
+            self.build(tier)
         except Exception as e:      # noqa: does not build against the current tree => undecided, never an alarm
             r.status = 'undecided'
             r.reason = 'native-build-failed'
@@ -157,7 +163,7 @@ class Native:
             r.wall_s = time.time() - t0
             return r
         args = self.thorough_args if tier == 'thorough' else self.quick_args
-        res, err = self.run(args)
+        res, err = self.run(args, tier=tier)
         r.wall_s = time.time() - t0
         r.rule = self.rule
         r.checker_cmd = 'rustc -O exec/%s (includes the real source files) && native_%s %s' % (self.src or 'gen (generated harness around the emitted modules)', self.name, ' '.join(args))
@@ -186,6 +192,9 @@ class Native:
 
     def replay(self, inp):
         res, err = self.run(['--replay', inp], timeout=120)
+        if err and self.builder_thorough is not None:
+            # the input may name a program that only the thorough build contains
+            res, err = self.run(['--replay', inp], timeout=120, tier='thorough')
         return res, err
 
 
